@@ -9,6 +9,7 @@ decoding the bytes the encoder wrote yields exactly the series, then a clean end
 -/
 import SigModel.Model.Gorilla
 import SigModel.Lemmas.C08
+import SigModel.Lemmas.C08e
 
 namespace SigModel.Props.C08
 open SigModel SigModel.Gorilla
@@ -34,32 +35,38 @@ def okSeries (header : Nat) : List (Nat × Nat) → Prop
 /-- C08.1 bit IO: reading back `n` written bits gives the low `n` bits, for every continuation. -/
 theorem readBits_writeBits (u n : Nat) (r : Bits) :
     readBits n (writeBits u n ++ r) = some (u % 2 ^ n, r) := by
-  sorry
+  exact Lemmas.C08.readBits_writeBits u n r
 
 /-- C08.2 byte packing: unpacking the flushed bytes gives the bits back plus < 8 zero padding bits. -/
 theorem unpack_pack (bs : Bits) :
     ∃ k, k < 8 ∧ unpack (pack bs) = bs ++ List.replicate k false := by
-  sorry
+  exact Lemmas.C08.unpack_pack bs
 
 /-- C08.3 (main): decode ∘ encode = id, bit-identically, for every header and series satisfying the
 guard, whatever follows the finish marker (padding). -/
 theorem decode_encode (header : Nat) (pts : List (Nat × Nat)) (pad : Bits)
     (h : okSeries header pts) :
     decodeAll (encodeAll header pts ++ pad) = some (header, pts, Status.eof) := by
-  sorry
+  exact Lemmas.C08.decode_encodeL header pts pad
+    ((Lemmas.C08.okSeriesL_iff okSeries okPts (fun _ => trivial) (fun _ _ _ _ => Iff.rfl)
+      (fun _ => Iff.rfl) (fun _ _ _ _ => Iff.rfl) header pts).1 h)
 
 /-- C08.3 at the byte level (what is stored in the TSG file / returned for open blocks). -/
 theorem decode_encode_bytes (header : Nat) (pts : List (Nat × Nat))
     (h : okSeries header pts) :
     decodeAll (unpack (pack (encodeAll header pts))) = some (header, pts, Status.eof) := by
-  sorry
+  exact Lemmas.C08.decode_encode_bytesL header pts
+    ((Lemmas.C08.okSeriesL_iff okSeries okPts (fun _ => trivial) (fun _ _ _ _ => Iff.rfl)
+      (fun _ => Iff.rfl) (fun _ _ _ _ => Iff.rfl) header pts).1 h)
 
 /-- the guard is closed under prefixes: a clone taken after any `k` points (open-block reads,
 `CloneCompressor`) decodes to exactly those `k` points. -/
 theorem clone_prefix_decodes (header : Nat) (pts : List (Nat × Nat)) (k : Nat)
     (h : okSeries header pts) :
     decodeAll (unpack (pack (encodeAll header (pts.take k)))) = some (header, pts.take k, Status.eof) := by
-  sorry
+  exact Lemmas.C08.clone_prefix_decodesL header pts k
+    ((Lemmas.C08.okSeriesL_iff okSeries okPts (fun _ => trivial) (fun _ _ _ _ => Iff.rfl)
+      (fun _ => Iff.rfl) (fun _ _ _ _ => Iff.rfl) header pts).1 h)
 
 /-- what the ingest path produces: header = first timestamp, timestamps non-decreasing,
 below 2^31, non-zero.  Such series always satisfy the guard (so the guard is not vacuous and the
@@ -71,17 +78,25 @@ def monotoneFrom (prev : Nat) : List (Nat × Nat) → Prop
 theorem okSeries_of_monotone (t0 v0 : Nat) (ps : List (Nat × Nat))
     (h0 : 0 < t0) (h1 : t0 < 2 ^ 31) (hv : v0 < P64) (hm : monotoneFrom t0 ps) :
     okSeries t0 ((t0, v0) :: ps) := by
-  sorry
+  exact (Lemmas.C08.okSeriesL_iff okSeries okPts (fun _ => trivial) (fun _ _ _ _ => Iff.rfl)
+      (fun _ => Iff.rfl) (fun _ _ _ _ => Iff.rfl) t0 ((t0, v0) :: ps)).2
+    (Lemmas.C08.okSeriesL_of_monotone t0 v0 ps h0 h1 hv
+      ((Lemmas.C08.monotoneFromL_iff monotoneFrom (fun _ => trivial) (fun _ _ _ _ => Iff.rfl) ps t0).1 hm))
 
 /-- non-vacuity: a concrete series with low-mantissa-bit neighbours (1.0, nextafter 1.0) meets the guard. -/
 example : okSeries 1700000000 [(1700000000, 0x3ff0000000000000), (1700000060, 0x3ff0000000000001)] := by
-  sorry
+  refine okSeries_of_monotone _ _ _ (by omega) (by omega) (by simp only [P64]; omega) ?_
+  exact ⟨by omega, by omega, by simp only [P64]; omega, trivial⟩
 
 /-- full-strength statement WITHOUT the end-marker clause is false: delta-of-delta = 2^32-1 is
 indistinguishable from the finish marker (timestamps 5, 5+2^31, 4). -/
 theorem decode_encode_unguarded_counterexample :
     ¬ (∀ header pts, (∀ p ∈ pts, p.1 < P32 ∧ p.1 ≠ 0 ∧ p.2 < P64) → (∀ t v ps, pts = (t, v) :: ps → header = t) →
         decodeAll (encodeAll header pts) = some (header, pts, Status.eof)) := by
-  sorry
+  intro h
+  have hc := h 5 [(5, 0), (2147483653, 0), (4, 0)] (by decide)
+    (by intro t v ps e; cases e; rfl)
+  revert hc
+  decide +kernel
 
 end SigModel.Props.C08
